@@ -303,6 +303,11 @@ func buildDefinition(spec *Spec, w *world) (def *graphql.SchemaDefinition, named
 					fail("duplicate enum value %s.%s", t.Name, v)
 				}
 				vs[v] = &graphql.EnumValueDefinition{Value: v}
+				for _, d := range t.DepValues {
+					if d == v {
+						vs[v].DeprecationReason = "no longer used"
+					}
+				}
 			}
 			named[t.Name] = &graphql.EnumType{Name: t.Name, RequiredFeatures: reqSet(t.Req), Values: vs}
 		case "input":
@@ -393,6 +398,9 @@ func buildDefinition(spec *Spec, w *world) (def *graphql.SchemaDefinition, named
 				continue
 			}
 			def := &graphql.FieldDefinition{Type: resolveT(parseType(f.Type)), RequiredFeatures: reqSet(f.Req), Arguments: mkArgs(f.Args, t.Name+"."+f.Name)}
+			if f.Deprecated {
+				def.DeprecationReason = "no longer used"
+			}
 			if withResolvers {
 				def.Resolve = w.resolver(t.Name, f)
 			}
@@ -420,7 +428,12 @@ func buildDefinition(spec *Spec, w *world) (def *graphql.SchemaDefinition, named
 					}
 					impl = append(impl, it)
 				}
+				depReason := ""
+				if f.Deprecated {
+					depReason = "no longer used"
+				}
 				def := apifu.Connection(&apifu.ConnectionConfig{
+					DeprecationReason:     depReason,
 					NamePrefix:            c.Prefix,
 					ImplementedInterfaces: impl,
 					RequiredFeatures:      reqSet(f.Req),
